@@ -127,36 +127,25 @@ Proof.
   intros j Hj. destruct j as [|[|[|[|j]]]]; try lia; vm_compute; reflexivity.
 Qed.
 
-(* ---------------- offset (finding #8) ---------------- *)
-(* what a single model does with offset: endogenous values of period q = t+offset copied into period p = t *)
-Definition seed_comp (c : fcomp) (p q : nat) : fcomp :=
-  with_cvals float c (copy_endo float fzero (c_desc c) (vals_of (c_st c)) p q).
-Definition seeded (s : flstate) (p q : nat) : flstate :=
-  mkL (seed_comp (l_core s) p q) (map (fun ic => (fst ic, seed_comp (snd ic) p q)) (l_subs s)) (l_log s).
-
-(* "a non-zero offset seeds period t from t+offset as it does for a single model" is FALSE of the linker:
-   with offset = -1 the endogenous A.V1 at t keeps its own value 11 instead of taking 10 from t-1, and the final
-   state differs from the one the offset-free run reaches from the seeded state *)
-Lemma linker_offset_seeds_refuted :
-  exists ss hs sel (o : fopts) t s p q,
-    offset o <> 0 /\ py_pos (core_len s) t = Some p /\ Z.of_nat p + offset o = Z.of_nat q /\ (q < core_len s)%nat /\
-    lstate_eqb (fst (f_linker_solve_t ss hs sel o t s))
-               (fst (f_linker_solve_t ss hs sel (set_offset float o 0) t (seeded s p q))) = false.
-Proof.
-  exists lx_ss, lx_hs, None, (lx_opts_off (-1)), 1, lx_state, 1%nat, 0%nat.
-  split; [discriminate|]. split; [reflexivity|]. split; [reflexivity|]. split; [vm_compute; lia|].
-  vm_compute. reflexivity.
-Qed.
-
-(* an offset pointing outside the span is not rejected either (a single model raises IndexError and changes nothing) *)
-Lemma linker_offset_out_of_span_accepted :
-  exists ss hs sel (o : fopts) t s p,
-    py_pos (core_len s) t = Some p /\ Z.of_nat p + offset o < 0 /\
-    snd (f_linker_solve_t ss hs sel o t s) = LRet true.
-Proof.
-  exists lx_ss, lx_hs, None, (lx_opts_off (-5)), 1, lx_state, 1%nat.
-  split; [reflexivity|]. split; [vm_compute; reflexivity|]. vm_compute. reflexivity.
-Qed.
+(* ---------------- offset (honoured since fix 6298cba) ---------------- *)
+(* offset = -1 at period 1: A's endogenous V1 — which no script writes — takes the value 10 of period 0 (it kept its own 11
+   while the linker ignored the argument); the run is the offset-free run from the seeded state *)
+Example lx_offset_seeds :
+  let r := lx_run None (lx_opts_off (-1)) in
+  snd r = LRet true /\
+  map (fun ic => nth 1 (nth 1 (vals_of (c_st (snd ic))) []) 0%float) (l_subs (fst r)) = [10%float; 0%float] /\
+  fst r = fst (f_linker_solve_t lx_ss lx_hs None (lx_opts 0 6) 1 (Linker.seeded float fzero [0%nat; 1%nat] 1 0 lx_state)).
+Proof. vm_compute. repeat split. Qed.
+(* only A selected: B is not seeded (nor evaluated, nor stamped) *)
+Example lx_offset_unselected_not_seeded :
+  nth_error (l_subs (Linker.seeded float fzero [0%nat] 1 0 lx_state)) 1 = Some (1%nat, lx_B) /\
+  nth_error (l_subs (fst (lx_run (Some [0%nat]) (lx_opts_off (-1))))) 1 = Some (1%nat, lx_B).
+Proof. vm_compute. split; reflexivity. Qed.
+(* an offset pointing outside the span: IndexError, nothing changed (it was accepted before the fix) *)
+Example lx_offset_out_of_span :
+  lx_run None (lx_opts_off (-5)) = (lx_state, LRaise (LExn IndexError)) /\
+  lx_run None (lx_opts_off 2) = (lx_state, LRaise (LExn IndexError)).
+Proof. vm_compute. split; reflexivity. Qed.
 
 (* ---------------- constructor ---------------- *)
 Example lx_ctor_maxima :
@@ -261,8 +250,9 @@ Example lx_single_differs_nan :
   snd (lx_mrun lx_sc_nan lx_dA (lx_opts 0 6)) = Raise (SolutionError None) /\
   snd (lx_lrun lx_sc_nan lx_dA (lx_opts 0 6)) = LRet true.
 Proof. vm_compute. split; reflexivity. Qed.
-(* offset: honoured by the model (V1 seeded from t-1), ignored by the linker *)
-Example lx_single_differs_offset :
+(* offset: honoured by both since fix 6298cba (V1 seeded from t-1) *)
+Example lx_single_agrees_offset :
   nth 1 (nth 1 (vals_of (fst (lx_mrun lx_scA lx_dA (lx_opts_off (-1))))) []) 0%float = 10%float /\
-  map (fun ic => nth 1 (nth 1 (vals_of (c_st (snd ic))) []) 0%float) (l_subs (fst (lx_lrun lx_scA lx_dA (lx_opts_off (-1))))) = [11%float].
-Proof. vm_compute. split; reflexivity. Qed.
+  map (fun ic => nth 1 (nth 1 (vals_of (c_st (snd ic))) []) 0%float) (l_subs (fst (lx_lrun lx_scA lx_dA (lx_opts_off (-1))))) = [10%float] /\
+  snd (lx_mrun lx_scA lx_dA (lx_opts_off (-5))) = Raise IndexError /\ snd (lx_lrun lx_scA lx_dA (lx_opts_off (-5))) = LRaise (LExn IndexError).
+Proof. vm_compute. repeat split. Qed.
